@@ -576,6 +576,12 @@ func judge(res *Result, b *txlab.Built, raw []byte, tam *tamper, outs []evalOut)
 			res.Parts["info:checktx-admits-relabelled-certificate-before-qc-verification"]++
 			continue
 		}
+		if o.path == "checktx" && id.Target == "noncustodial-redirect" && accepted && !okRef && b.SigValid && tam == nil {
+			// CheckTx admits an edit-stake signed by the operator; that the operator may not name a new
+			// output address is decided when the message is handled. Admission changes no state: information only.
+			res.Parts["info:checktx-admits-operator-signed-output-redirect-before-handler"]++
+			continue
+		}
 		if accepted && !okRef {
 			var sig, why string
 			switch {
